@@ -338,9 +338,11 @@ class Simulator(EventProducer, SimulatorInterface, Generic[TIME]):
         self._run_state = RunState.NOT_INITIALIZED
         self._replication_state = ReplicationState.NOT_INITIALIZED
     
-    def _start_impl(self):
+    def _start_impl(self, run_until_time, run_until_including: bool):
         """Implementation of the start method. Checks preconditions for 
-        running and fires the right events."""
+        running and fires the right events. The run-until time is only 
+        stored after all checks have passed, so a refused command does not 
+        change the bound of a run that is in progress."""
         if self.is_starting_or_running():
             raise DSOLError("cannot start a running simulator")
         if self._replication == None:
@@ -352,6 +354,14 @@ class Simulator(EventProducer, SimulatorInterface, Generic[TIME]):
             raise DSOLError("replication state not INITIALIZED or STARTED")
         if self._simulator_time >= self._replication.end_sim_time:
             raise DSOLError("cannot start: simulator_time > run length")
+        if not run_until_time >= self._simulator_time:
+            raise DSOLError("cannot run up to a time before simulator_time")
+        if run_until_time > self._replication.end_sim_time:
+            # never run beyond the end of the replication
+            run_until_time = self._replication.end_sim_time
+            run_until_including = True
+        self._run_until_time = run_until_time
+        self._run_until_including = run_until_including
         self._run_state = RunState.STARTING
         if self._replication_state == ReplicationState.INITIALIZED:
             self.fire_timed(self._simulator_time,
@@ -374,9 +384,7 @@ class Simulator(EventProducer, SimulatorInterface, Generic[TIME]):
         replication when starting the simulator."""
         if self._replication == None:
             raise DSOLError("no replication details")
-        self._run_until_time = self._replication.end_sim_time
-        self._run_until_including = True
-        self._start_impl()
+        self._start_impl(self._replication.end_sim_time, True)
      
     @abstractmethod
     def _step_impl(self):
@@ -441,17 +449,13 @@ class Simulator(EventProducer, SimulatorInterface, Generic[TIME]):
         """Runs the simulator up to a certain time; any events at that time, 
         or the solving of the differential equation at that timestep, 
         will not yet be executed."""
-        self._run_until_time = stop_time
-        self._run_until_including = False
-        self._start_impl()
+        self._start_impl(stop_time, False)
         
     def run_up_to_including(self, stop_time: TIME):
         """Runs the simulator up to a certain time; all events at that time, 
         or the solving of the differential equation at that timestep, 
         will be executed."""
-        self._run_until_time = stop_time
-        self._run_until_including = True
-        self._start_impl()
+        self._start_impl(stop_time, True)
     
     def warmup(self):
         self.fire_timed(self.simulator_time,
